@@ -128,10 +128,10 @@ PROPS.update({
     "C10": e2("C10", "Limits 0..size+2; each (source, loader, limit) is loaded 2-3 times under different completion orders/concurrency; oracle: exactly min(max(n,k),size) entries = supplied + most recent others, never above the limit, identical across orders (which-ones skipped when a comparator tie sits on the cut).",
               expected_probes=["limit-zero", "limit-beyond-size", "fetch-main-blocked-on-semaphore"]),
     "C11": e2("C11", "Fault plan per scenario: none / one / few / many blocks, kinds notfound, error, undecodable, stall; excluded hashes; random or forced cancellation. Oracle: result == model closure over next and refs along retrievable non-excluded entries (subset when cancelled), no duplicate entry, no duplicate or excluded request, termination, nothing outstanding at return.",
-              level="fault_enumeration", expected_probes=["fetch-cancelled", "fault-cuts-off-history", "fetch-main-blocked-on-semaphore", "timeout-fired", "returned-before-timeout"],
+              level="fault_enumeration", expected_probes=["fetch-cancelled", "fault-cuts-off-history", "fetch-main-blocked-on-semaphore", "timeout-fired", "returned-before-timeout", "single-faults-enumerated-completely"],
               also=[dict(prop="C11T", variant="vt", share=0.2)]),
     "C12": e2("C12", "One stored block (manifest, head, root, anywhere) is corrupted at rest: structure-level (22 field paths x absent/null/two wrong types/extra/empty), bit flip, truncation, garbage, or another well-formed object; decoded in-process (every accessor, comparator, Verify exercised on whatever comes back) and loaded through the loaders under the driver; oracle: no panic (in-process or worker death), load succeeds and returns exactly the remaining retrievable history.",
-              level="fault_enumeration", expected_probes=["corrupt-block-still-decodes"]),
+              level="fault_enumeration", expected_probes=["corrupt-block-still-decodes", "struct-mutations-enumerated-completely"]),
     "C20": dict(engine="E3", variant="plain", level="exploration", quick_s=30, thorough_s=300,
                 rule="keystore worlds: 1-3 (later more) keystore instances over one fault-injecting datastore, 8-32 events from {create, get, has, open new instance, bulk-create 129+ keys to overflow the LRU, CreateIdentity twice on the same/different instances}, Put/Get I/O errors; after every event every sampled id is checked on every instance against a map model. Non-trivial = a fault fired, an instance was opened or the cache overflowed.",
                 assumptions=["keys come from crypto/rand: relations are compared, never key bytes", "keystore operations are atomic events (Keystore is not goroutine-safe by contract)"],
@@ -146,7 +146,7 @@ MANIFEST_TEXT.update({
                 design_ref="DESIGN.md 3.4, 5 C10", note="The which-entries part is skipped when a comparator tie sits on the cut (count still checked).",
                 technique=DSIM + "E2 fetch driver with model of the most-recent set and cross-schedule comparison"),
     "C11": dict(text="Per generated stored log, faulty block subsets of each kind (absent, error, undecodable, stalled), exclusions, concurrency and completion orders are drawn from the tape; result compared with the model's reachable closure, request log checked, termination enforced by the driver (stuck or leaking fetch = violation).",
-                design_ref="DESIGN.md 3.4, 5 C11", note="Stalled blocks end by injected cancellation; virtual-time Timeout (synctest) variant is not built, see DESIGN.md.",
+                design_ref="DESIGN.md 3.4, 5 C11", note="In the E2 driver stalled blocks end by injected cancellation; the Timeout clause is decided by the virtual-time sub-batch (go1.26.8 testing/synctest, a fifth of the worker slots), where the order of concurrently runnable workers is the Go scheduler's. For logs of at most 12 blocks every block x fault kind is enumerated in a third of the scenarios; larger logs and multi-fault plans are sampled.",
                 technique=DSIM + "E2 fetch driver with block-fault injection, reachable-set model and request-log oracle"),
     "C12": dict(text="At-rest corruption of one block per scenario, enumerated over field paths x mutation kinds plus byte-level damage, checked in-process and through every loader; worker-process death is attributed to the run and reported.",
                 design_ref="DESIGN.md 3.4, 5 C12", note="Blocks are stored under their original cid (the simulated store does not re-verify hashes, like a faulty or malicious gateway).",
